@@ -31,6 +31,10 @@ CHECKS = {
  'C03': dict(level=MC, tech='TLA+ mechanism model of the k-way lookahead merge (Streams.tla MuxNext) model-checked against the merge contract; every transition of the model graph replayed on the real echs_evstrm_vmux and validated',
    text='E1: TLC explores the I-level model of next_evmux (unprimed sentinel, first-non-nul scan, lt-replace / eq-pop-and-refill, refill on pop, release at exhaustion) for all choices of <= 3 constituents x <= 2 (thorough 3) occurrences x times 1..3 x uids {a,b} and all peek/pop interleavings, with the merge contract (sorted, complete, each occurrence 1..multiplicity times, ends only when all ended, peek pure) as invariant. E3: a path cover of the dumped state graph executes every model transition on the real merge built from parsed VEVENTs; E2: each recorded run is judged by TLC against the contract (violation) and against the deterministic model run (drift). Plus seeded random merges of up to 12 constituents.',
    note='trusted: TLC, dot-graph path cover (selects behaviours only), printing-only driver. Constituents are RDATE-list events; merges of rule streams are exercised through C01/C02 drivers.', ref='3/C03'),
+
+ 'C10': dict(level=MC, tech='TLA+ mechanism model of the parser line assembly (IcalLines.tla) model-checked for partition independence; metamorphic trace validation of the real pull parser over byte strings x chunkings in a sanitizer build, with model-vs-code binding on the model strings',
+   text='E1: TLC explores the I-level model of esccpy/_ical_pull (chop at LF not followed by SP/HT, bounded stash, carried state for a pending escape / possible fold / over-long line, end-of-input pull) for every byte string of length <= 6 (thorough 7) over {a CR LF SP \\ n} and every chunking, invariant: handed-on logical lines equal the single-chunk feed. E2/E3: the real parser (address+bounds sanitizer build, exact-size heap chunks) is fed every string of length <= 4/5 over a 7-byte alphabet embedded as a SUMMARY value under ALL partitions, plus repository and generated calendars (folds at many columns, CRLF/LF, escapes, ~1 KiB lines, truncations, garbage) under 1-byte, every-single-split, boundary-pair, 4096 and random partitions; TLC judges each run equal to the single-chunk run of the same bytes (violation) and, for model strings, equal to the model prediction (drift). Crashes, sanitizer reports and timeouts are records the spec rejects.',
+   note='trusted: TLC, the dumping driver (prints every task field and 20 occurrences). Both sides of the relation are runs of the real parser. Memory safety is observed through the sanitizer build only on explored inputs. One slack byte follows each chunk (callers always pass a larger read buffer).', ref='3/C10'),
 }
 NA_REASON = 'check not built yet (construction in progress, see DESIGN.md section 10)'
 hooks = {'guard': 'HROPTATYR_ECHSE_VERIF', 'enable': 'no hooks in /repo: checks compile /repo/src as it is (harness/build.sh) and observe through existing seams', 'baseline_off_cmd': 'make -C /repo check', 'source_commits': [], 'add_only': True}
